@@ -7,9 +7,12 @@ import CV.Model.Machine
 The encoder backend is a `Vec<Word>` (writes never fail); the decoder backend is a `Cursor`
 over a word buffer (`data`, `pos`; reads never fail, reading past the end yields `None`).
 
-Counters of type `usize` (`num_inverted`, positions, lengths) are unbounded naturals: the
-only `usize` operation in the code that could fail is `num_inverted.wrapping_add(1)`
-followed by `NonZeroUsize::new(..).expect(..)`, which needs `2^64` renormalisations.
+Counters of type `usize` are `usizeBits`-bit machine integers like everything else:
+`bulk.pos() + num_inverted` (`pos`), `count += num_inverted` (`num_seal_words`),
+`remaining() + num_seal_words()` (`num_words`), `Word::BITS * num_words()` (`num_bits`) are
+checked operations, and `num_inverted.wrapping_add(1)` followed by
+`NonZeroUsize::new(..).expect(..)` panics when it wraps to zero.  Only the length of a `Vec`
+(a list here) carries no explicit bound.
 
 Every plain `*`, `+`, `<<`, `>>`, `/` of the Rust code is a checked operation returning a
 `Fault`; `wrapping_add`/`wrapping_sub` are `wadd`/`wsub`; `as_()` is `narrow`.
@@ -21,6 +24,9 @@ inductive Situation where
   | normal
   | inverted (numInverted : Nat) (first : Nat)
   deriving Repr, DecidableEq, Inhabited
+
+/-- `usize::BITS` on the targets the harness runs on -/
+def usizeBits : Nat := 64
 
 /-- `num_inverted`, or 0 in the normal situation -/
 def Situation.held : Situation → Nat
@@ -101,8 +107,11 @@ def renorm (c : Cfg) (bulk : List Nat) (sit : Situation) (lower range : Nat) : M
           | .ok lower2 =>
             match sit with
             | .inverted n first =>
+              -- `NonZeroUsize::new(num_inverted.get().wrapping_add(1)).expect(..)`
+              let n' := wadd usizeBits n 1
+              if n' = 0 then .error (.panic "range.enc.num_inverted") else
               .ok { bulk := bulk, lower := lower2, range := range2,
-                    situation := .inverted (n + 1) first }
+                    situation := .inverted n' first }
             | .normal =>
               if wadd c.S lower2 range2 > lower2 then
                 .ok { bulk := bulk ++ [lowerWord], lower := lower2, range := range2,
@@ -200,19 +209,20 @@ def numSealWords (c : Cfg) (e : Encoder) : M Nat :=
       | .ok ut =>
         let upperWord := narrow c.W ut
         let count := if upperWord = pointWord then 2 else 1
-        .ok (count + e.situation.held)
+        -- `count += num_inverted.get()`
+        cadd "range.nsw.count+n" usizeBits count e.situation.held
 
 /-- `num_words` for a `Vec` backend -/
 def numWords (c : Cfg) (e : Encoder) : M Nat :=
   match numSealWords c e with
   | .error f => .error f
-  | .ok k => .ok (e.bulk.length + k)
+  | .ok k => cadd "range.nw.remaining+seal" usizeBits e.bulk.length k
 
-/-- `num_bits = Word::BITS * num_words()` (`usize` arithmetic, unbounded here) -/
+/-- `num_bits = Word::BITS * num_words()` (`usize` arithmetic) -/
 def numBits (c : Cfg) (e : Encoder) : M Nat :=
   match numWords c e with
   | .error f => .error f
-  | .ok k => .ok (c.W * k)
+  | .ok k => cmul "range.nb.W*nw" usizeBits c.W k
 
 /-- `is_empty` -/
 def isEmpty (c : Cfg) (e : Encoder) : Bool :=
@@ -244,8 +254,10 @@ def clear (c : Cfg) (e : Encoder) : Encoder :=
   { e with bulk := [], lower := 0, range := maxState c }
 
 /-- `Pos::pos` for a `Vec` backend: `(bulk.len() + num_inverted, (lower, range))` -/
-def Encoder.pos (e : Encoder) : Nat × Nat × Nat :=
-  (e.bulk.length + e.situation.held, e.lower, e.range)
+def Encoder.pos (e : Encoder) : M (Nat × Nat × Nat) :=
+  match cadd "range.pos.len+n" usizeBits e.bulk.length e.situation.held with
+  | .error f => .error f
+  | .ok n => .ok (n, e.lower, e.range)
 
 /-! ## Decoder -/
 
